@@ -380,6 +380,12 @@ impl RoomPowerLevels {
 
     /// Get the power level required to send the given state event type.
     pub fn for_state(&self, state_type: StateEventType) -> Int {
+        // The authorization rules only compare the sender's power level with the level required
+        // to invite for this type.
+        if state_type == StateEventType::RoomThirdPartyInvite {
+            return self.invite;
+        }
+
         self.events.get(&state_type.into()).copied().unwrap_or(self.state_default)
     }
 
